@@ -239,6 +239,7 @@ package godi
 //@   ensures[C15,C08] not_found_is_classifiable: result1 != nil && d == nil ==> result0 == nil && typeis(result1, "*ResolutionError") && as(result1, "*ResolutionError").Cause == ErrServiceNotFound
 //@   ensures[C15] bad_lifetime: d != nil && d.Lifetime != Singleton && d.Lifetime != Scoped && d.Lifetime != Transient ==> result0 == nil && typeis(result1, "*LifetimeError")
 //@   ensures[C15] error_means_no_value: result1 != nil && (d == nil || d.Lifetime != Transient) ==> result0 == nil
+//@   ensures[C02,C15] resolve_itself_never_writes_a_table: ncalls("scope.instancesMu.Lock") == 0 && ncalls("scope.disposablesMu.Lock") == 0 && ncalls("provider.singletons.Store") == 0 && ncalls("provider.singletons.Delete") == 0
 //@   at after call s.getInstance#1 : assert[C02] scoped_hit_no_create: ok ==> ncalls("scope.createInstance") == 0
 //
 //@ func extractParameterTypes
@@ -356,6 +357,8 @@ package godi
 //@   at after assign s#1 : assert[C02] fresh_tables: fresh(s) && fresh(s.instances) && len(s.instances) == 0 && fresh(s.children) && len(s.children) == 0 && len(s.disposables) == 0 && s.disposed == 0
 //@   at after assign s#1 : assert[C18,C02] identity: s.rootProvider == rootProvider && s.parentScope == parent && s.cancel == cancel
 //@   at before loop 1 : ghost inits := initializers
+//@   at before loop 1 : assert[C18] context_published_before_initializers: s.context != nil && ctxvalue(s.context, box(mk("scopeContextKey"))) == box(s) && ctxparent(s.context) == ite(old(ctx) == nil, ctxbackground(), old(ctx))
+//@   ensures[C02,C08,C18] initializer_phase_always_runs: ncalls("provider.voidReturnScopedDescriptorsMu.RLock") == 1 && callarg("provider.voidReturnScopedDescriptorsMu.RLock", 0, 0) == rootProvider
 //@   ensures[C15] value_xor_error: (result1 == nil) <==> (result0 != nil)
 //@   ensures[C02,C18] returns_the_new_scope: result1 == nil ==> result0 == made
 //@   ensures[C02,C18] new_scope_identity: result1 == nil ==> fresh(result0) && result0.rootProvider == rootProvider && result0.parentScope == parent && result0.cancel == cancel
@@ -469,6 +472,8 @@ package godi
 // ---------------------------------------------------------------------------------------------
 //@ pred occursNode(n *graph.Node, l []*graph.Node) = exists i int :: 0 <= i && i < len(l) && l[i] == n
 //
+//@ pred typedNilExcluded(g *graph.DependencyGraph) = forall k graph.NodeKey :: (k in g.nodes) && typeis(g.nodes[k].Provider, "*Descriptor") ==> as(g.nodes[k].Provider, "*Descriptor") != nil
+//
 //@ func provider.createAllSingletonsWithContext
 //@   mode conc
 //@   interferes
@@ -478,8 +483,8 @@ package godi
 //@   requires has_graph: p.graph != nil
 //@   requires has_root_scope: p.rootScope != nil && p.rootScope.rootProvider == p
 //@   requires has_analyzer: p.analyzer != nil
-//@   requires graph_wf: wf(p.graph)
-//@   requires typed_nil_excluded: forall n *graph.Node :: {n.Provider} typeis(n.Provider, "*Descriptor") ==> as(n.Provider, "*Descriptor") != nil
+//@   requires typed_nil_excluded: typedNilExcluded(p.graph)
+//@   requires degrees_fresh: dependentsOK(p.graph)
 //@   ghost order []*graph.Node
 //@   ghost pos seq[int]
 //@   at after assign sorted#1 : ghost order := sorted
@@ -765,6 +770,8 @@ package godi
 //
 //@ func collection.doBuild
 //@   safety[C15,C08]
+//@   dead return#3
+//@   dead return#4
 //@   requires maps: regmaps(sc) && r1(sc) && r2(sc) && ctx != nil && sc.analyzer != nil
 //@   requires deps_nonnil: forall i int, j int :: 0 <= i && i < len(sc.allDescriptors) && sc.allDescriptors[i] != nil && 0 <= j && j < len(sc.allDescriptors[i].Dependencies) ==> sc.allDescriptors[i].Dependencies[j] != nil
 //@   ghost pos seq[int]
@@ -802,7 +809,10 @@ package godi
 //@   ensures[C15] failed_singleton_phase_is_classifiable: ncalls("provider.createAllSingletonsWithContext") == 1 && callret("provider.createAllSingletonsWithContext", 0, 0) != nil && callret("provider.Close", 0, 0) == nil ==>
 //@        as(result1, "*BuildError").Cause == callret("provider.createAllSingletonsWithContext", 0, 0)
 //@   loop 2
+//@     invariant providers_ok: typedNilExcluded(g) && g.sortedNodesDirty
 //@     invariant frame: allDescriptors == old(sc.allDescriptors) && g != nil && wf(g) && ncalls("graph.DependencyGraph.DetectCycles") == 0
+//@     invariant groups_added: ncalls("newGroupNode") == ncalls("graph.DependencyGraph.AddProviderDeferred") - nreg && nreg <= ncalls("graph.DependencyGraph.AddProviderDeferred")
+//@        && (forall c int :: 0 <= c && c < ncalls("newGroupNode") ==> callarg("graph.DependencyGraph.AddProviderDeferred", nreg + c, 1) == box(callret("newGroupNode", c, 0, "*groupNode")))
 //@     invariant registrations_kept: forall c int :: 0 <= c && c < ncalls("graph.DependencyGraph.AddProviderDeferred") && c < nreg ==> callarg("graph.DependencyGraph.AddProviderDeferred", c, 1) == box(allDescriptors[pos[c]])
 //@   loop 4
 //@     invariant cloned_so_far: services != nil && fresh(services) && (forall k TypeKey :: (k in services) ==> (k in sc.services) && services[k] == sc.services[k])
@@ -811,6 +821,7 @@ package godi
 //@     invariant cloned_so_far: groups != nil && fresh(groups) && (forall k GroupKey :: (k in groups) ==> (k in sc.groups) && len(groups[k]) == len(sc.groups[k]) && (forall i int :: 0 <= i && i < len(groups[k]) ==> groups[k][i] == sc.groups[k][i]))
 //@        && (forall k GroupKey :: seen[k] ==> (k in groups))
 //@   loop 1
+//@     invariant providers_ok: typedNilExcluded(g) && g.sortedNodesDirty
 //@     invariant frame: allDescriptors == old(sc.allDescriptors) && g != nil && wf(g)
 //@     invariant calls_ok: forall c int :: 0 <= c && c < ncalls("graph.DependencyGraph.AddProviderDeferred") ==>
 //@        0 <= pos[c] && pos[c] < idx && allDescriptors[pos[c]] != nil && callarg("graph.DependencyGraph.AddProviderDeferred", c, 1) == box(allDescriptors[pos[c]])
